@@ -318,11 +318,15 @@ def run_miri(seed, tier="thorough"):
     scripts = 12 if tier == "thorough" else 4
     total, viol = 0, []
     # the quick tier takes the scripts whose texts are non-ASCII (first column computation races)
-    script_ids = list(range(scripts)) if tier == "thorough" else [4, 5, 6, 7][:scripts]
+    # (script 3 has one physical line of several KiB: caches that only engage far into a line)
+    script_ids = list(range(scripts)) if tier == "thorough" else [4, 5, 6, 7, 3]
     for script in script_ids:
         cmd = ["cargo", "+nightly", "miri", "run", "--offline", "--quiet", "--bin", "threads", "--", str(seed), str(script)]
-        p = subprocess.run(cmd, cwd=d, env=env, stdout=subprocess.PIPE, stderr=subprocess.PIPE, text=True)
-        total += n_seeds
+        # the long-line scripts (3, 9) cost ~8 s per schedule under the interpreter: fewer of them
+        seeds_here = n_seeds if script % 6 != 3 else max(3, n_seeds // 5)
+        env_here = dict(env, MIRIFLAGS=f"-Zmiri-many-seeds=0..{seeds_here} -Zmiri-preemption-rate=0.3 -Zmiri-disable-isolation")
+        p = subprocess.run(cmd, cwd=d, env=env_here, stdout=subprocess.PIPE, stderr=subprocess.PIPE, text=True)
+        total += seeds_here
         if p.returncode != 0 and not miri_found_something(p.stdout + p.stderr):
             # the tool itself failed (toolchain, sysroot, compile error): a harness error, never a verdict
             log(f"HARNESS-ERROR miri thread layer could not run (script {script}):\n" + (p.stdout + p.stderr)[-1500:])
@@ -339,7 +343,7 @@ def run_miri(seed, tier="thorough"):
             viol.append({"key": f"thread-schedule@script{script}", "replay": path, "detail": tail[-400:]})
             log(f"  miri script {script}: FAILED")
         else:
-            log(f"  miri script {script}: {n_seeds} schedules ok")
+            log(f"  miri script {script}: {seeds_here} schedules ok")
     # the history layer itself under the interpreter (UB detection on every explored history)
     hist_runs = int(os.environ.get("VERIF_MIRI_HIST_RUNS", "150"))
     hist = {}
